@@ -25,6 +25,8 @@ type c21Inc struct { // one incarnation of a client id's session in the first li
 	persistent bool
 	may        map[string]byte // every filter this incarnation ever asked for -> QoS
 	must       map[string]byte // acknowledged before the crash instant, removal not begun
+	mustStep   map[string]int  // step of that acknowledgement
+	undecided  bool            // a connection that changes the session's persistence was cut by the crash before its CONNACK
 	endedStep  int             // step in which the session ended for good (-1: alive at the crash / restart)
 }
 
@@ -112,7 +114,13 @@ func c21Judge(c *hist.Case, run *hist.Run, r *evid.Rec, k int, n int) []evid.Dis
 				if in != nil {
 					in.endedStep = s.I // replaced by a clean start
 				}
-				incs[cid] = append(incs[cid], &c21Inc{startStep: s.I, may: map[string]byte{}, must: map[string]byte{}, endedStep: -1})
+				incs[cid] = append(incs[cid], &c21Inc{startStep: s.I, may: map[string]byte{}, must: map[string]byte{}, mustStep: map[string]int{}, endedStep: -1})
+			}
+			if resumed && !ackBefore && in.persistent != persistentOf(&s.A) {
+				// the crash came before this connection was acknowledged: which of the two persistence settings the
+				// store reflects is undecided, nothing is asserted for this client id
+				in.undecided = true
+				continue
 			}
 			cur(cid).persistent = persistentOf(&s.A)
 		case "subscribe":
@@ -127,6 +135,7 @@ func c21Judge(c *hist.Case, run *hist.Run, r *evid.Rec, k int, n int) []evid.Dis
 					ack := findAck(run, s, refmqtt.SUBACK)
 					if ack != nil && i < len(ack.ReasonCodes) && ack.ReasonCodes[i] < 0x80 {
 						in.must[f.Filter] = f.QoS
+						in.mustStep[f.Filter] = s.I
 					}
 				}
 			}
@@ -170,12 +179,34 @@ func c21Judge(c *hist.Case, run *hist.Run, r *evid.Rec, k int, n int) []evid.Dis
 		if l := incs[cid]; len(l) > 0 {
 			last = l[len(l)-1]
 		}
+		if last != nil && last.undecided {
+			r.Label("persistence-change-undecided-at-crash")
+			continue
+		}
 		alive := last != nil && last.endedStep < 0 && last.persistent
 		cause := ""
-		if _, crashed, ev := run.Crash0State(); crashed && ev == "session-established "+cid {
-			// CONNACK is written before the session record (OnSessionEstablished): the cut fell exactly there, so the
+		if _, crashed, _ := run.Crash0State(); crashed {
+			// CONNACK is written before the session record (OnSessionEstablished): if the cut fell between the two, the
 			// store still describes the connection before (its persistence in particular)
-			cause = "-session-record-write-cut"
+			written, acked := 0, 0
+			for _, ev := range run.Crash0.Events() {
+				if ev == "session-established "+cid {
+					written++
+				}
+			}
+			for _, s := range run.Steps[:restart] {
+				if s.A.Kind == "connect" && !s.Skipped && s.A.ClientIDStr() == cid && s.Peer >= 0 {
+					p := run.Peers[s.Peer]
+					for i, pk := range p.Got {
+						if pk.Type == refmqtt.CONNACK && pk.ReasonCode == 0 && run.BeforeCrash(p, i) {
+							acked++
+						}
+					}
+				}
+			}
+			if written < acked {
+				cause = "-session-record-write-cut"
+			}
 		}
 		for _, s := range run.Steps[restart:] {
 			if s.A.Kind != "publish" || s.Skipped || s.Tag == 0 || s.A.ClientIDStr() != "c2" {
@@ -224,20 +255,21 @@ func c21Judge(c *hist.Case, run *hist.Run, r *evid.Rec, k int, n int) []evid.Dis
 				if s.A.Kind != "publish" || s.Skipped || s.Tag == 0 || s.A.ClientIDStr() != "c2" || s.A.QoS == 0 {
 					continue
 				}
-				// the subject must have been offline with an acknowledged QoS>0 subscription made in completed steps
-				online := false
+				// the subject held an acknowledged QoS>0 subscription (made in an earlier step) and has not acknowledged
+				// the message itself: it was offline, or its connection does not acknowledge
+				online, autoAck := false, false
 				for _, p := range run.Peers {
 					if p.CID == cid && p.Established() && p.OpenedAt < s.I && (p.ClosedAt < 0 || p.ClosedAt >= s.I) {
-						online = true
+						online, autoAck = true, p.AutoAck
 					}
 				}
 				q := byte(0)
 				for f, fq := range last.must {
-					if reftopic.MatchSub(f, s.A.Topic) && fq > q {
+					if reftopic.MatchSub(f, s.A.Topic) && fq > q && last.mustStep[f] < s.I {
 						q = fq
 					}
 				}
-				if online || q == 0 || s.I < last.startStep {
+				if (online && autoAck) || q == 0 || s.I < last.startStep {
 					continue
 				}
 				ackT := byte(refmqtt.PUBACK)
@@ -248,15 +280,24 @@ func c21Judge(c *hist.Case, run *hist.Run, r *evid.Rec, k int, n int) []evid.Dis
 				if !seen || !before {
 					continue
 				}
-				// a later unsubscribe / session change voids the obligation
-				voided := false
+				// a later connection of the subject that acknowledges what it is (re)sent settles the obligation; one that
+				// does not acknowledge leaves it open, and is exactly the situation a takeover must not lose
+				voided, across := false, ""
 				for _, s2 := range run.Steps[s.I:restart] {
-					if !s2.Skipped && s2.A.ClientIDStr() == cid && (s2.A.Kind == "connect" || s2.A.Kind == "unsubscribe") {
-						voided = true
+					if !s2.Skipped && s2.A.ClientIDStr() == cid && s2.A.Kind == "connect" {
+						if s2.A.AutoAck {
+							voided = true
+						} else {
+							across = "-across-reconnect"
+						}
 					}
 				}
 				if voided {
 					continue
+				}
+				sigBase := "C21-acknowledged-message-for-offline-session-lost"
+				if online {
+					sigBase = "C21-unacknowledged-inflight-message-lost"
 				}
 				got := false
 				for _, pk := range sc.peer.Got {
@@ -265,7 +306,7 @@ func c21Judge(c *hist.Case, run *hist.Run, r *evid.Rec, k int, n int) []evid.Dis
 					}
 				}
 				if !got {
-					ds = append(ds, evid.D("C21-acknowledged-message-for-offline-session-lost"+inside, "%s: m%d (QoS %d on %q) was acknowledged to its publisher before the crash instant while %s was offline with an acknowledged QoS %d subscription; after the restart %s resumed its session but never received it", where, s.Tag, s.A.QoS, s.A.Topic, cid, q, cid))
+					ds = append(ds, evid.D(sigBase+across+cause+inside, "%s: m%d (QoS %d on %q) was acknowledged to its publisher before the crash instant; %s (online=%v) held an acknowledged QoS %d subscription and never acknowledged the message; after the restart %s resumed its session but never received it", where, s.Tag, s.A.QoS, s.A.Topic, cid, online, q, cid))
 				} else {
 					r.Label("queued-message-restored")
 				}
@@ -415,8 +456,10 @@ func c21Gen(rt *rapid.T) *hist.Case {
 	exp := uint32(300)
 	filters := []string{"t/a", "t/#", "u/+", "t/b"}
 	topics := []string{"t/a", "t/b", "u/x"}
+	subjectsAck := rapid.Bool().Draw(rt, "subjects-acknowledge")
+	secondLife := false
 	connect := func(cl int, clean bool) hist.Action {
-		a := hist.Action{Kind: "connect", Client: cl, Version: versions[cl%2], Clean: clean, AutoAck: true}
+		a := hist.Action{Kind: "connect", Client: cl, Version: versions[cl%2], Clean: clean, AutoAck: subjectsAck || secondLife}
 		if a.Version == 5 && rapid.IntRange(0, 4).Draw(rt, "persistent") != 0 {
 			a.Expiry = &exp
 		}
@@ -449,6 +492,7 @@ func c21Gen(rt *rapid.T) *hist.Case {
 		}
 	})
 	c.Actions = append(c.Actions, rapid.SliceOfN(action, 3, 12).Draw(rt, "actions")...)
+	secondLife = true
 	c.Actions = append(c.Actions, hist.Action{Kind: "restart"},
 		hist.Action{Kind: "connect", Client: 2, Version: 4, Clean: true, AutoAck: true})
 	for cl := 0; cl < 2; cl++ {
